@@ -11,7 +11,29 @@ import dimod
 from dimod.serialization.fileview import load as fv_load
 
 import gen
-from gen import F, enc_label, dec_label
+from gen import F
+
+
+def enc_label(v):
+    """label -> JSON-able; keeps tuples, NumPy scalar types and floats apart"""
+    if isinstance(v, tuple):
+        return {"t": [enc_label(x) for x in v]}
+    if isinstance(v, np.integer):
+        return {"np": type(v).__name__, "v": int(v)}
+    if isinstance(v, np.floating):
+        return {"np": type(v).__name__, "v": float(v)}
+    return v
+
+
+def dec_label(j):
+    if isinstance(j, dict):
+        if "np" in j:
+            return getattr(np, j["np"])(j["v"])
+        return tuple(dec_label(x) for x in j["t"])
+    if isinstance(j, list):
+        return tuple(dec_label(x) for x in j)
+    return j
+
 from wlib import clist, cpair
 
 warnings.simplefilter("ignore")
@@ -22,13 +44,19 @@ MODELLED_LABELS = [0, 1, 2, 3, 5, 7, -1, -12, 10 ** 12, 255, 64,
                    ('t', 1), ('t', 2), (), ('a', ('b', 2)), (1,), ((),), ('x/y', -3), ('a', 'b', ('c', ('d',)))]
 # labels the format accepts but whose JSON is outside the modelled subset (tie-only)
 WILD_LABELS = [1.5, -0.25, 'é', 'tab\t', 'nl\n', 'ü/ß', ('f', 2.5), 0.001953125, 'del\x7f', '☃', ('é', 1), '\x01']
+# labels that are numbers.Integral but not `int`, and integers beyond 2**53: the format stores them as JSON integers and
+# they come back as Python ints of the same value
+NP_SCALARS = [np.int64(123), np.int32(-7), np.uint8(200), np.int16(300), np.int64(2 ** 53 + 1), np.int64(2 ** 62 + 3),
+              2 ** 53 + 3, -(2 ** 60) - 1]
+NP_IN_TUPLES = [('n', np.int64(9)), (np.int8(-3), 'm'), ('big', np.int64(2 ** 53 + 5)), 2 ** 53 + 3]
+NP_LABELS = NP_SCALARS + NP_IN_TUPLES[:3]
 VT = gen.VT
 
 
 def is_modelled_label(v):
     if isinstance(v, bool):
         return False
-    if isinstance(v, int):
+    if isinstance(v, (int, np.integer)):
         return True
     if isinstance(v, str):
         return all(32 <= ord(c) <= 126 for c in v)
@@ -37,7 +65,7 @@ def is_modelled_label(v):
     return False
 
 
-def pick_labels(rng, n, wild_p=0.3, range_p=0.2):
+def pick_labels(rng, n, wild_p=0.3, range_p=0.2, np_p=0.0):
     """n distinct labels. Sometimes exactly range(n), sometimes a permutation of small ints."""
     r = rng.random()
     if r < range_p:
@@ -50,11 +78,25 @@ def pick_labels(rng, n, wild_p=0.3, range_p=0.2):
     if rng.random() < wild_p:
         pool += WILD_LABELS
     rng.shuffle(pool)
-    return pool[:n]
+    out = pool[:n]
+    if np_p and rng.random() < np_p:
+        # replace some labels by NumPy-integer / very large integer labels.  A bare NumPy scalar label next to a tuple
+        # label cannot be used: `u == v` inside add_quadratic is then an array (reported separately), so either bare
+        # scalars without tuples, or NumPy integers inside tuples
+        if rng.random() < 0.6:
+            extra = list(NP_SCALARS)
+            out = [('s%d' % i if isinstance(v, tuple) else v) for i, v in enumerate(out)]
+        else:
+            extra = list(NP_IN_TUPLES)
+        rng.shuffle(extra)
+        for i in range(len(out)):
+            if extra and rng.random() < 0.6:
+                out[i] = extra.pop()
+    return out
 
 
 def rand_desc(rng, labels, kinds=('BINARY', 'SPIN', 'INTEGER', 'REAL'), single_vartype=False, kmax=8, jmax=2,
-              density=0.5):
+              density=0.5, real_q=False):
     n = len(labels)
     if single_vartype:
         k = rng.choice(kinds)
@@ -77,16 +119,34 @@ def rand_desc(rng, labels, kinds=('BINARY', 'SPIN', 'INTEGER', 'REAL'), single_v
     for i in range(n):
         for j in range(i, n):
             if i == j:
-                if vts[i] != 'INTEGER' or rng.random() > 0.4:
+                if not (vts[i] == 'INTEGER' or (real_q and vts[i] == 'REAL')) or rng.random() > 0.4:
                     continue
             else:
-                if rng.random() > density or 'REAL' in (vts[i], vts[j]):
+                if rng.random() > density or (not real_q and 'REAL' in (vts[i], vts[j])):
                     continue
             b = rng.dyadic(kmax, jmax) if rng.random() > 0.1 else Fraction(0)
             u, v = (labels[i], labels[j]) if rng.random() < 0.5 else (labels[j], labels[i])
             quad.append([enc_label(u), enc_label(v), str(b)])
     off = rng.dyadic(kmax, jmax) if rng.random() < 0.7 else Fraction(0)
-    return {"vars": vars_, "lin": lin, "quad": quad, "off": str(off)}
+    d = {"vars": vars_, "lin": lin, "quad": quad, "off": str(off)}
+    if real_q:
+        d["real_interactions"] = True
+    return d
+
+
+class real_interactions:
+    """context: dimod.REAL_INTERACTIONS switched on while a model with REAL quadratic terms is built"""
+
+    def __init__(self, on):
+        self.on = on
+
+    def __enter__(self):
+        self.old = dimod.REAL_INTERACTIONS
+        if self.on:
+            dimod.REAL_INTERACTIONS = True
+
+    def __exit__(self, *a):
+        dimod.REAL_INTERACTIONS = self.old
 
 
 DTYPES = {'float64': np.float64, 'float32': np.float32, 'object': object}
@@ -106,16 +166,31 @@ def build_bqm(desc, dtype='float64'):
 
 
 def build_qm(desc, dtype='float64'):
-    return gen.build_qm(desc, dtype=DTYPES[dtype])
+    with real_interactions(desc.get("real_interactions")):
+        qm = dimod.QuadraticModel(dtype=DTYPES[dtype])
+        for l, vt, lb, ub in desc["vars"]:
+            if vt in ('INTEGER', 'REAL'):
+                qm.add_variable(vt, dec_label(l), lower_bound=lb, upper_bound=ub)
+            else:
+                qm.add_variable(vt, dec_label(l))
+        for l, b in desc["lin"]:
+            qm.add_linear(dec_label(l), float(F(b)))
+        for u, v, b in desc["quad"]:
+            qm.add_quadratic(dec_label(u), dec_label(v), float(F(b)))
+        qm.offset = float(F(desc["off"]))
+    return qm
 
 
-def rand_cqm_desc(rng, nmax=4, cmax=3, wild_p=0.3, shaped_p=0.0):
+def rand_cqm_desc(rng, nmax=4, cmax=3, wild_p=0.3, shaped_p=0.0, np_p=0.0, real_q_p=0.0):
     n = rng.randint(0, nmax)
-    labels = pick_labels(rng, n, wild_p=wild_p)
+    labels = pick_labels(rng, n, wild_p=wild_p, np_p=np_p)
+    real_q = bool(real_q_p) and rng.random() < real_q_p
     base = rand_desc(rng, labels, kinds=('BINARY', 'SPIN', 'INTEGER', 'INTEGER', 'REAL'))
     allvars = base["vars"]
 
     def sub_expr(p_keep):
+        # with REAL interactions enabled, each expression independently may or may not contain them
+        real_here = real_q and rng.random() < 0.6
         keep = [v for v in allvars if rng.random() < p_keep]
         ks = {json.dumps(v[0], sort_keys=True) for v in keep}
         e = {"vars": keep, "lin": [[v[0], str(rng.dyadic(8, 2))] for v in keep if rng.random() < 0.8], "quad": [],
@@ -123,16 +198,18 @@ def rand_cqm_desc(rng, nmax=4, cmax=3, wild_p=0.3, shaped_p=0.0):
         for i in range(len(keep)):
             for j in range(i, len(keep)):
                 vi, vj = keep[i], keep[j]
-                if i == j and vi[1] != 'INTEGER':
+                if i == j and not (vi[1] == 'INTEGER' or (real_here and vi[1] == 'REAL')):
                     continue
-                if 'REAL' in (vi[1], vj[1]):
+                if not real_here and 'REAL' in (vi[1], vj[1]):
                     continue
-                if rng.random() < 0.35:
+                if rng.random() < (0.6 if real_here and 'REAL' in (vi[1], vj[1]) else 0.35):
                     e["quad"].append([vi[0], vj[0], str(rng.dyadic(8, 2))])
         return e
     obj = sub_expr(0.8) if rng.random() < 0.85 else None
     cons = []
     pool = list(MODELLED_LABELS) + (WILD_LABELS if rng.random() < wild_p else []) + ['c0', 'c1', 'con/str/aint', 'constraints/x/lhs']
+    if np_p and rng.random() < np_p:
+        pool = pool[:6] + [l for l in NP_LABELS if not any(key(l) == key(x) for x in labels + pool[:6])]
     rng.shuffle(pool)
     for ci in range(rng.randint(0, cmax)):
         e = sub_expr(rng.choice([0.0, 0.5, 0.9]))        # 0.0: constant-only constraint
@@ -152,6 +229,8 @@ def rand_cqm_desc(rng, nmax=4, cmax=3, wild_p=0.3, shaped_p=0.0):
     if len(bins) >= 2 and rng.random() < 0.4:
         disc.append({"label": enc_label(pool[cmax + 1]), "vars": [v[0] for v in bins[:rng.randint(2, len(bins))]]})
     d = {"allvars": allvars, "objective": obj, "constraints": cons, "discrete": disc}
+    if real_q:
+        d["real_interactions"] = True
     if shaped_p and rng.random() < shaped_p:
         add_shaped(rng, d, pool[cmax + 2:])
     return d
@@ -245,7 +324,19 @@ def apply_shaped(cqm, items):
             raise ValueError(r)
 
 
+def _expr_qm(c, e):
+    e = dict(e)
+    if c.get("real_interactions"):
+        e["real_interactions"] = True
+    return build_qm(e)
+
+
 def build_cqm(c):
+    with real_interactions(c.get("real_interactions")):
+        return _build_cqm(c)
+
+
+def _build_cqm(c):
     cqm = dimod.ConstrainedQuadraticModel()
     for l, vt, lb, ub in c["allvars"]:
         if vt in ('INTEGER', 'REAL'):
@@ -253,21 +344,21 @@ def build_cqm(c):
         else:
             cqm.add_variable(vt, dec_label(l))
     if c["objective"] is not None:
-        cqm.set_objective(gen.build_qm(c["objective"]))
+        cqm.set_objective(_expr_qm(c, c["objective"]))
     for e in c["constraints"]:
         kw = {}
         if "weight" in e:
             kw = dict(weight=float(F(e["weight"])), penalty=e["penalty"])
-        cqm.add_constraint_from_model(gen.build_qm(e), e["sense"], rhs=float(F(e["rhs"])), label=dec_label(e["label"]), **kw)
+        cqm.add_constraint_from_model(_expr_qm(c, e), e["sense"], rhs=float(F(e["rhs"])), label=dec_label(e["label"]), **kw)
     for d in c["discrete"]:
         cqm.add_discrete([dec_label(v) for v in d["vars"]], label=dec_label(d["label"]))
     apply_shaped(cqm, c.get("shaped", []))
     return cqm
 
 
-def rand_dqm_desc(rng, nmax=4, wild_p=0.3):
+def rand_dqm_desc(rng, nmax=4, wild_p=0.3, np_p=0.0):
     n = rng.randint(0, nmax)
-    labels = pick_labels(rng, n, wild_p=wild_p)
+    labels = pick_labels(rng, n, wild_p=wild_p, np_p=np_p)
     vars_ = [[enc_label(l), rng.randint(1, 3)] for l in labels]
     lin = [[v[0], k, str(rng.dyadic(8, 2))] for v in vars_ for k in range(v[1]) if rng.random() < 0.7]
     quad = []
@@ -301,8 +392,12 @@ def tl(v):
     """typed label: distinguishes 1 / 1.0 / True / '1' / numpy scalars, tuples vs lists"""
     if isinstance(v, bool):
         return ['bool', v]
-    if isinstance(v, (np.integer, np.floating)):
-        return ['np:' + type(v).__name__, repr(v)]
+    # what the format stores: numbers.Integral -> JSON integer, other numbers -> JSON float; a loaded label is compared
+    # with the Python value the original label denotes (type-aware: 5 and 5.0 differ)
+    if isinstance(v, np.integer):
+        return ['i', str(int(v))]
+    if isinstance(v, np.floating):
+        return ['f', repr(float(v))]
     if isinstance(v, int):
         return ['i', str(v)]
     if isinstance(v, float):
@@ -451,7 +546,8 @@ def cN(n):
 
 
 def clabel(v):
-    if isinstance(v, int):
+    if isinstance(v, (int, np.integer)):
+        v = int(v)
         return f"(LInt ({v})%Z)"
     if isinstance(v, str):
         return f"(LStr {cbytes(v.encode('ascii'))})"
